@@ -1189,6 +1189,10 @@ class Memoer(Tymee):
             oz = 3 * oz // 4
         # min size is big enough for zeroth gram overhead plus 1 body byte
         size = max(size, oz + 1)
+        # and for non-zeroth gram overhead, which .rend does not reduce when
+        # .curt, plus 1 body byte so non-zeroth body size in .rend is positive
+        bz, nz, mz, vz, az = self.Sizes[self.Pairs[self.code]]  # non-zeroth
+        size = max(size, bz + mz + nz + vz + az + 1)
         if size > self.MaxGramSize:
             hioing.MemoerError(f"Invalid {size=} exceeds "
                                f"MaxGramSize={self.MaxGramSize}")
